@@ -12,9 +12,14 @@ Definition term_eqb (a b : Q * list (Z * Z)) : bool :=
   forallb (fun p => pair_eqb (fst p) (snd p)) (combine (snd a) (snd b)).
 Definition nonnegb (X : list (list Q)) : bool := forallb (forallb (fun x => Qle_bool 0 x)) X.
 Definition squareb (X : list (list Q)) : bool := forallb (fun row => (length row =? length X)%nat) X.
+(* all rows and all columns have the sum of the first row (the hypothesis Bal of the C06 theorems) *)
+Definition qsum (l : list Q) : Q := fold_right (fun x a => Qred (x + a)) 0%Q l.
+Definition balb (X : list (list Q)) : bool :=
+  let n := length X in let s := qsum (nth 0 X []) in
+  forallb (fun row => Qeq_bool (qsum row) s) X && forallb (fun j => Qeq_bool (qsum (map (fun row => nth j row 0%Q) X)) s) (seq 0 n).
 Definition chk_bvn (c : bvn_case) : bool :=
   let '(X, ffuel, e) := c in
-  squareb X && nonnegb X &&
+  squareb X && nonnegb X && balb X && (length X <? ffuel)%nat &&
   match bvn ffuel X with
   | Some r => (length r =? length e)%nat && forallb (fun p => term_eqb (fst p) (snd p)) (combine r e)
   | None => false
